@@ -149,9 +149,15 @@ Expect(s, ev) ==
            [] ev.kind = "id" ->
                 IF ~IdOK(ev.id)
                 THEN [st |-> s, ok |-> ev.panic = "" /\ ~ev.ok, why |-> "verifyid: id length limit"]
-                ELSE [st |-> s, ok |-> VerifyOK(ev, Eof(ZAof(ev.id, ev.pubx, ev.puby), ev.msg))
-                                       /\ InsSame(ev, <<ev.pubx, ev.puby, ev.r, ev.s, ev.id, ev.msg>>),
-                      why |-> IF ev.panic # "" THEN "verifyid: panic" ELSE "verifyid: verdict"])
+                ELSE LET e == Eof(ZAof(ev.id, ev.pubx, ev.puby), ev.msg)
+                         \* signatures produced by another implementation (OpenSSL) double as a
+                         \* validation of this specification: it must accept them
+                         specOK == ("other_impl" \in DOMAIN ev) =>
+                                      C!S!VerifyDef(ev.pubx, ev.puby, e, ev.r, ev.s)
+                     IN [st |-> s, ok |-> specOK /\ VerifyOK(ev, e)
+                                          /\ InsSame(ev, <<ev.pubx, ev.puby, ev.r, ev.s, ev.id, ev.msg>>),
+                         why |-> IF ~specOK THEN "specval: the specification rejects a signature made by OpenSSL"
+                                 ELSE IF ev.panic # "" THEN "verifyid: panic" ELSE "verifyid: verdict"])
 
 InitSt == <<>>
 TC == INSTANCE TraceCommon
